@@ -2,10 +2,12 @@
 
 use crate::runner::PropDef;
 
+pub mod c15;
 pub mod c16;
+pub mod c18;
 
 pub fn all() -> Vec<&'static PropDef> {
-    vec![&c16::PROP]
+    vec![&c15::PROP, &c16::PROP, &c18::PROP]
 }
 
 pub fn find(id: &str) -> Option<&'static PropDef> {
